@@ -72,12 +72,12 @@ type FTab struct {
 type SymStr struct{ parts []strPart }
 
 type strPart struct {
-	lit   string // kind 0
-	num   *Term  // kind 1: decimal rendering of num, min width w, zero padded if w>0
-	w     int
-	hex   bool
-	alts  []strAlt // kind 2: guarded alternatives (guards pairwise disjoint, exhaustive on path)
-	kind  int
+	lit  string // kind 0
+	num  *Term  // kind 1: decimal rendering of num, min width w, zero padded if w>0
+	w    int
+	hex  bool
+	alts []strAlt // kind 2: guarded alternatives (guards pairwise disjoint, exhaustive on path)
+	kind int
 }
 
 type strAlt struct {
